@@ -12,6 +12,17 @@ def Rule.plainAction (r : Rule) : Bool :=
   | .allow | .deny | .pass => true
   | _ => false
 
+/-- allow / deny / pass / log: the actions a POLICY rule may have. -/
+def Rule.tierAction (r : Rule) : Bool :=
+  match actOf r.action with
+  | .invalid => false
+  | _ => true
+
+/-- The per-rule side condition of the evaluation lemmas: a plain action, or a `log` action that
+the label map sends to the `log` label. -/
+def ActOK (lab : String → Label) (r : Rule) : Prop :=
+  r.plainAction = true ∨ (actOf r.action = .log ∧ lab r.action = .log)
+
 theorem tierActionLabel_actOf (al : Label) (tid : Nat) (a : String) :
     tierActionLabel al tid a = (match actOf a with
       | .allow => al | .deny => .deny | .log => .log | .pass => .endOfTier tid | .invalid => .none) := by
@@ -37,9 +48,10 @@ def decLabel (al passL : Label) : Dec → Option Label
   | .noMatch => none
 
 theorem rulesTarget_eval (env : Env) (p : Pkt) (leg : Leg) (lab : String → Label) (al passL : Label)
+    (hal : al ≠ .log) (hpl : passL ≠ .log)
     (hlab : ∀ a, (actOf a = .allow → lab a = al) ∧ (actOf a = .deny → lab a = .deny) ∧
       (actOf a = .pass → lab a = passL)) :
-    ∀ rs : List Rule, (∀ r ∈ rs, r.plainAction = true) →
+    ∀ rs : List Rule, (∀ r ∈ rs, ActOK lab r) →
       rulesTarget env p leg lab rs = decLabel al passL (evalRules env p leg rs) := by
   intro rs
   induction rs with
@@ -55,29 +67,40 @@ theorem rulesTarget_eval (env : Env) (p : Pkt) (leg : Leg) (lab : String → Lab
       simp only
       by_cases hm : ruleMatch env p leg fr = true
       · simp only [hm, if_true]
-        unfold Rule.plainAction at hr
         obtain ⟨h1, h2, h3⟩ := hlab r.action
-        cases ha : actOf r.action <;> simp [ha, decLabel] at hr ⊢
-        · exact h1 ha
-        · exact h2 ha
-        · exact h3 ha
+        rcases hr with hr | ⟨hlog, hl⟩
+        · unfold Rule.plainAction at hr
+          cases ha : actOf r.action <;> simp [ha, decLabel] at hr ⊢
+          · rw [h1 ha]; simp [hal]
+          · rw [h2 ha]; simp
+          · rw [h3 ha]; simp [hpl]
+        · simp only [hlog, hl, if_true, Option.none_or]
+          exact ih'
       · simp only [hm, Bool.false_eq_true, if_false]
         simpa using ih'
 
 theorem policiesTarget_eval (env : Env) (p : Pkt) (leg : Leg) (lab : String → Label) (al passL : Label)
+    (hal : al ≠ .log) (hpl : passL ≠ .log)
     (hlab : ∀ a, (actOf a = .allow → lab a = al) ∧ (actOf a = .deny → lab a = .deny) ∧
       (actOf a = .pass → lab a = passL)) :
-    ∀ ps : List Policy, (∀ pol ∈ ps, ∀ r ∈ pol.rules, r.plainAction = true) →
+    ∀ ps : List Policy, (∀ pol ∈ ps, ∀ r ∈ pol.rules, ActOK lab r) →
       policiesTarget env p leg lab ps = decLabel al passL (evalPolicies env p leg ps) := by
   intro ps
   induction ps with
   | nil => intro _; rfl
   | cons pol ps ih =>
     intro h
-    have h1 := rulesTarget_eval env p leg lab al passL hlab pol.rules (h pol (List.mem_cons_self))
+    have h1 := rulesTarget_eval env p leg lab al passL hal hpl hlab pol.rules (h pol (List.mem_cons_self))
     have ih' := ih (fun pol' hp' => h pol' (List.mem_cons_of_mem _ hp'))
     simp only [policiesTarget, evalPolicies, h1]
     cases evalRules env p leg pol.rules <;> simp [decLabel, ih']
+
+theorem tierAction_ok (al : Label) (tid : Nat) (r : Rule) (h : r.tierAction = true) :
+    ActOK (tierActionLabel al tid) r := by
+  unfold ActOK Rule.plainAction
+  unfold Rule.tierAction at h
+  rw [tierActionLabel_actOf]
+  cases ha : actOf r.action <;> simp [ha] at h ⊢
 
 /-- What a whole tier list decides. -/
 def tiersDec (al : Label) : Dec → Option Label
@@ -85,17 +108,17 @@ def tiersDec (al : Label) : Dec → Option Label
   | .deny => some .deny
   | _ => none
 
-theorem tiersTarget_eval (env : Env) (p : Pkt) (leg : Leg) (al : Label) (hat : al.isTierEnd = false) :
-    ∀ (ts : List Tier) (tid : Nat), (∀ t ∈ ts, ∀ pol ∈ t.policies, ∀ r ∈ pol.rules, r.plainAction = true) →
+theorem tiersTarget_eval (env : Env) (p : Pkt) (leg : Leg) (al : Label) (hat : al.isTierEnd = false) (hal : al ≠ .log) :
+    ∀ (ts : List Tier) (tid : Nat), (∀ t ∈ ts, ∀ pol ∈ t.policies, ∀ r ∈ pol.rules, r.tierAction = true) →
       tiersTarget env p leg al ts tid = tiersDec al (evalTiers env p leg ts) := by
   intro ts
   induction ts with
   | nil => intro _ _; rfl
   | cons t ts ih =>
     intro tid h
-    have hP := policiesTarget_eval env p leg (tierActionLabel al tid) al (.endOfTier tid)
+    have hP := policiesTarget_eval env p leg (tierActionLabel al tid) al (.endOfTier tid) hal (by simp)
       (fun a => by rw [tierActionLabel_actOf]; refine ⟨?_, ?_, ?_⟩ <;> intro e <;> simp [e])
-      t.policies (h t (List.mem_cons_self))
+      t.policies (fun pol hp r hr => tierAction_ok al tid r (h t (List.mem_cons_self) pol hp r hr))
     have ih' := ih (tid + 1) (fun t' ht' => h t' (List.mem_cons_of_mem _ ht'))
     have hne : al ≠ .endOfTier tid := by intro e; rw [e] at hat; simp [Label.isTierEnd] at hat
     cases hea : t.endAction <;>
@@ -107,7 +130,7 @@ def profDec (al : Label) : Dec → Option Label
   | .allow => some al
   | _ => some .deny
 
-theorem profilesTarget_eval (env : Env) (p : Pkt) (al : Label) :
+theorem profilesTarget_eval (env : Env) (p : Pkt) (al : Label) (hal : al ≠ .log) :
     ∀ ps : List Policy, (∀ pol ∈ ps, ∀ r ∈ pol.rules, r.plainAction = true) →
       (policiesTarget env p .dest (profileActionLabel al) ps).or (some .deny) =
         profDec al (evalProfiles true env p ps) := by
@@ -116,11 +139,11 @@ theorem profilesTarget_eval (env : Env) (p : Pkt) (al : Label) :
   | nil => intro _; rfl
   | cons pol ps ih =>
     intro h
-    have h1 := rulesTarget_eval env p .dest (profileActionLabel al) al .deny
+    have h1 := rulesTarget_eval env p .dest (profileActionLabel al) al .deny hal (by simp)
       (fun a => by
         refine ⟨?_, ?_, ?_⟩ <;> intro e <;>
           (rw [profileActionLabel_actOf al a (by rw [e]; simp)]; simp [e]))
-      pol.rules (h pol (List.mem_cons_self))
+      pol.rules (fun r hr => Or.inl (h pol (List.mem_cons_self) r hr))
     have ih' := ih (fun pol' hp' => h pol' (List.mem_cons_of_mem _ hp'))
     simp only [policiesTarget, evalProfiles, h1]
     cases evalRules env p .dest pol.rules <;> simp [decLabel, profDec, ih']
